@@ -57,8 +57,23 @@ def direct_check(ops, resp):
     for i, (op, st) in enumerate(zip(ops, steps)):
         if op[0] == "L":
             launched += 1
+        cx = op[2] if op[1:2] == "@" else None          # W@f…, S@s…, J@e: issued from inside a context
+        if cx:
+            op = op[0] + op[3:]
+        forked = cx in ("s", "c")                       # a clone with its own empty job table
+        if forked and not isinstance(st, str):
+            prevt = steps[i - 1][0] if i and not isinstance(steps[i - 1], str) else []
+            if st[0] != prevt:
+                fails.append((None, "a subshell's %s changed the parent's job table" % op[0], i))
+            if op[0] == "W" and st[2] != "ok":
+                fails.append((None, "wait in a subshell did not return at once: %s" % st[2], i))
+            if op[0] == "J" and st[2] != "none":
+                fails.append((None, "jobs in a subshell lists the parent's jobs: %s" % st[2], i))
+            continue
         if isinstance(st, str):
-            if st == "blocked" and op[0] == "W":
+            if st == "blocked" and forked:
+                fails.append((None, "wait in a subshell blocked on the parent's jobs", i))
+            elif st == "blocked" and op[0] == "W":
                 # wait may only block while some job is unfinished
                 prev = steps[i - 1] if i else ([], [], "-")
                 ended = set(prev[1]) | {int(k) for k in op[1:].split(",") if k.isdigit() and 1 <= int(k) <= launched}
@@ -70,7 +85,7 @@ def direct_check(ops, resp):
         if len(set(ids)) != len(ids) and not dup_seen:
             dup_seen = True
             fails.append((CLAUSE_DUP, "two live jobs carry the same job number: %s" % ids, i))
-        if op == "J" and extra != "none":
+        if op[0] == "J" and extra != "none":
             jids = [re.match(r"\d+", x).group(0) for x in extra.split(",")]
             if len(set(jids)) != len(jids) and not dup_seen:
                 dup_seen = True
@@ -226,6 +241,7 @@ def gen_inproc(ctx):
 
 def run_inproc(ctx):
     cases = gen_inproc(ctx)
+    ctx.inproc_cases = cases
     lines = [" ".join(ops) for _, ops in cases]
     okh, bouts, errs = lib.run_vh_parallel(BIN, lines)
     if not okh:
@@ -323,8 +339,9 @@ JOB_KINDS = ["brace", "sub", "simple", "pipe", "pipe3", "func", "andor", "out", 
 WAITLINE = "wait\necho W$(sort -n $M | tr '\\n' ,)"
 
 
-def gen_script(rng, njobs, force=None):
-    """returns (script_lines, meta) ; meta['waits'] = list of (index_of_W_line, set_of_jobs_launched_before)"""
+def gen_script(rng, njobs, force=None, kinds=None, loops=True):
+    """returns (script_lines, meta) ; meta['before'] = per `wait; echo W…` line the jobs launched before it"""
+    kinds = kinds or JOB_KINDS
     lines = ["bgjob() { sleep $1; echo $2 >> $M; }", ": > $M"]
     k = 0
     fg = 0
@@ -334,10 +351,10 @@ def gen_script(rng, njobs, force=None):
     while budget > 0:
         r = rng.random()
         if r < 0.55:
-            kind = rng.choice(JOB_KINDS)
+            kind = rng.choice(kinds)
             d = rng.choice(DUR)
             where = rng.random()
-            if where < 0.2 and budget >= 2:
+            if where < 0.2 and budget >= 2 and loops:
                 # launched from a loop
                 n = min(budget, rng.randint(2, 3))
                 ds = [rng.choice(DUR) for _ in range(n)]
@@ -400,6 +417,8 @@ def canon_run(script_lines, r):
         if inj is not None:
             inj.append(l)
             continue
+        if re.match(r"^\[\d+\][+\- ]", l):
+            continue      # a job report (`wait` / prompt under job control: interactive, set -m), not foreground output
         fgseq.append(l)
     return fgseq, bgpos, jobblocks
 
@@ -413,7 +432,7 @@ def job_ids(block):
     return ids
 
 
-def e2e_check(script_lines, mode, rb, ro, before):
+def e2e_check(script_lines, mode, rb, ro, before, reps=1):
     """property on brush's run, with bash's run as the oracle of the foreground sequence.
     returns list of (clause_or_None, why)"""
     fails = []
@@ -439,7 +458,7 @@ def e2e_check(script_lines, mode, rb, ro, before):
     # bg output lines are complete before the line printed right after the next wait
     wpos = [i for i, x in enumerate(bf) if x.startswith("W")]
     for k, plist in bbg.items():
-        if len(plist) != 1:
+        if len(plist) != reps:      # reps = 2 when the whole script is run twice in one shell
             fails.append((None, "background job %d wrote its output %d times" % (k, len(plist))))
         firstw = next((i for i, lb in enumerate(launched_before) if k in lb), None)
         if firstw is not None and firstw < len(wpos) and plist[0] > wpos[firstw]:
@@ -471,6 +490,10 @@ def run_one_e2e(case):
             m = os.path.join(d, "m-" + which)
             env = dict(lib.BASE_ENV)
             env["M"] = m
+            env["F"] = os.path.join(d, "f-" + which)
+            if case.get("seg") is not None:
+                env["SEG"] = os.path.join(d, "seg-" + which)
+                open(env["SEG"], "w").write("\n".join(case["seg"]) + "\n")
             if pauses and which == "brush":
                 env["BRUSH_VERIF_PAUSES"] = pauses
             text = "\n".join(script_lines) + "\n"
@@ -479,9 +502,12 @@ def run_one_e2e(case):
                 p = os.path.join(d, "s-%s.sh" % which)
                 open(p, "w").write(text)
                 cmd = list(ts) + lib.shell_cmd(which, p, (), "file")
+            if mode == "inter":
+                cmd = list(ts) + ([lib.BRUSH, "--norc", "--noprofile", "--no-config", "-i", "--input-backend", "minimal"]
+                                  if which == "brush" else [lib.BASH, "--norc", "--noprofile", "-i"])
             try:
-                p = subprocess.run(cmd, input=text.encode() if mode == "stdin" else None,
-                                   stdin=None if mode == "stdin" else subprocess.DEVNULL,
+                p = subprocess.run(cmd, input=text.encode() if mode in ("stdin", "inter") else None,
+                                   stdin=None if mode in ("stdin", "inter") else subprocess.DEVNULL,
                                    stdout=subprocess.PIPE, stderr=subprocess.PIPE, env=env, timeout=30, cwd=d)
                 res.append({"rc": p.returncode, "out": p.stdout.decode("utf-8", "replace"),
                             "err": p.stderr.decode("utf-8", "replace"), "timeout": False})
@@ -507,6 +533,7 @@ def corpus_e2e():
 def run_e2e(ctx):
     rng = ctx.rng
     cases = corpus_e2e()
+    ctx.e2e_cases = cases
     # every job-set size 1..8, every delivery mode, every cpu restriction at least once (seed independent shape)
     n = ctx.size(216, 1800)
     for i in range(n):
@@ -541,6 +568,312 @@ def run_e2e(ctx):
 
 
 # ------------------------------------------------------------------------------------------------
+# context sweep: the same launch / wait / poll / jobs cases issued from other execution contexts and under
+# options that must not change the result; bash in the same context / option is the oracle
+
+INPROC_CTX = "fgeblrsc"     # function, two functions deep, eval, brace+redirect, loop body, sourced file, subshell, $( )
+
+
+def ctx_variant(ops, c):
+    return [o[0] + "@" + c + o[1:] if o[0] in "WSJ" else o for o in ops]
+
+
+def run_inproc_sweep(ctx, base):
+    """a seeded sample of the in-process cases, every wait / wait %spec / jobs re-issued from inside each context;
+    brush (real Shell) vs the Lean model's runIn, plus the direct predicates"""
+    rng = ctx.rng
+    pool = [ops for kind, ops in base if any(o[0] in "WSJ" for o in ops)]
+    sample = rng.sample(pool, min(len(pool), ctx.size(400, 6000)))
+    cases = [(c, ctx_variant(ops, c)) for ops in sample for c in INPROC_CTX]
+    lines = [" ".join(ops) for _, ops in cases]
+    okh, bouts, errs = lib.run_vh_parallel(BIN, lines)
+    if not okh:
+        ctx.broken.append("harness c17 died (context sweep): " + errs[:500])
+    mouts = lib.run_drv_parallel(["C17 %s %s" % (ID_RULE, l) for l in lines])
+    nviol = 0
+    for (c, ops), b, m in zip(cases, bouts, mouts):
+        ctx.count(("ctx", tuple(ops)), bucket="ctx_inproc_" + c)
+        ctx.impl_validated += 1
+        body = b.partition(" || ")[0]
+        fails = [f for f in direct_check(ops, b) if f[0] != CLAUSE_DUP or ID_RULE == "max"] if not b.startswith(("PANIC", "<")) else \
+            [(None, "brush's job code panicked", 0)]
+        if (body != m or fails) and nviol < 10:
+            nviol += 1
+            bs, ms = body.split(" | "), m.split(" | ")
+            at = next((i for i, (x, y) in enumerate(zip(bs, ms)) if x != y), min(len(bs), len(ms)) - 1)
+            why = "; ".join(f[1] for f in fails)
+            ctx.violation("context %s: " % c + ("job-table model and brush disagree" if body != m else "property fails") +
+                          (": " + why if why else ""), {"ops": ops[:at + 1], "brush": bs[at:at + 1], "model": ms[at:at + 1]},
+                          kind="property" if fails else "correspondence")
+
+
+E2E_CTX = ["top", "func", "func2", "subshell", "cmdsubst", "eval", "brace", "lastpipe", "while", "for", "trap", "source", "twice"]
+# options that must not change what these scripts do (nothing is unset, globs, or fails in the foreground)
+E2E_OPTS = ["set -u", "set -f", "set -e", "set -E", "set -T", "set +h", "set -m", "shopt -s extglob", "shopt -s nullglob",
+            "shopt -s dotglob", "shopt -s nocasematch", "shopt -s globstar", "shopt -s expand_aliases", "shopt -s lastpipe",
+            "shopt -s inherit_errexit", "set -o posix", "set -eu; shopt -s lastpipe inherit_errexit"]
+E2E_MODES = ["c", "stdin", "file", "inter"]
+ONE_LINE_KINDS = ["func", "simple", "andor", "func"]     # job texts brush lists on one line (job reports are filtered by line)
+
+
+def wrap_ctx(c, T):
+    if c == "top":
+        return list(T)
+    if c == "func":
+        return ["ctxf() {"] + T + ["}", "ctxf"]
+    if c == "func2":
+        return ["ctxg() {"] + T + ["}", "ctxf() { ctxg; }", "ctxf"]
+    if c == "subshell":
+        return ["("] + T + [")"]
+    if c == "cmdsubst":
+        return ["x=$("] + T + [")", "printf '%s\\n' \"$x\""]
+    if c == "eval":
+        return ['eval "$(cat "$SEG")"']
+    if c == "brace":
+        return ["{"] + T + ["} 3>/dev/null 4>&1"]
+    if c == "lastpipe":
+        return ["shopt -s lastpipe", "echo x | {"] + T + ["}"]
+    if c == "while":
+        return ["n=0", "while [ $n -lt 1 ]; do", "n=1"] + T + ["done"]
+    if c == "for":
+        return ["for it in 1; do"] + T + ["done"]
+    if c == "trap":
+        return ["ctxf() {"] + T + ["}", "trap ctxf EXIT", "echo main"]
+    if c == "source":
+        return ['. "$SEG"']
+    if c == "twice":
+        return T + T
+    raise ValueError(c)
+
+
+def sweep_case(seg, before, c, opt, mode, tag="ctx"):
+    lines = ([opt] if opt else []) + wrap_ctx(c, seg)
+    return {"lines": lines, "seg": seg, "mode": mode, "taskset": [], "pauses": "", "tag": tag, "ctx": c, "opt": opt,
+            "before": before + before if c == "twice" else before}
+
+
+def iso_cases(rng):
+    """contexts with semantics of their own: a subshell / command substitution has its own empty job table"""
+    out = []
+    seg = [": > $M", "{ sleep 0.7; echo 1 >> $M; } &", "( wait; echo I$(cat $M) )", "x=$(wait; echo C$(cat $M)); echo $x",
+           "f() { ( wait; echo F$(cat $M) ); }; f", WAITLINE, "echo end"]
+    out.append(sweep_case(seg, [[1]], "top", "", rng.choice(["c", "stdin", "file"]), "iso_parent_job"))
+    seg = [": > $M", "( { sleep 0.7; echo 1 >> $M; } & )", WAITLINE, "sleep 1.1", "echo L$(cat $M)", "echo end"]
+    out.append(sweep_case(seg, [[]], "top", "", rng.choice(["c", "stdin", "file"]), "iso_child_job"))
+    seg = [": > $M", "bgjob() { sleep $1; echo $2 >> $M; }",     # one-line job texts: job reports are filtered by line
+           "( bgjob 0.3 1 & bgjob 0.1 2 & wait; echo I$(sort -n $M | tr '\\n' ,) )",
+           WAITLINE, "echo end"]
+    out.append(sweep_case(seg, [[1, 2]], "top", "", rng.choice(["c", "stdin", "file", "inter"]), "iso_child_waits"))
+    return out
+
+
+# -- synchronisation forms other than plain `wait`, job-table listings, disown / kill / $! ----------------------
+CL_STATUS = "wait_jobspec_returns_zero"
+CL_NOSUCH = "wait_unknown_jobspec_status_1"
+CL_WAITED = "waited_job_stays_addressable"
+CL_KILL = "kill_jobspec_cannot_signal_background_task"
+CL_ABORT = "wait_stops_at_job_that_ended_with_error"
+CL_WAITN = "wait_n_unimplemented"
+CL_NAME = "jobspec_by_command_text_unimplemented"
+CL_JOBSP = "jobs_p_prints_no_pid"
+CL_JOBSL = "jobs_l_unimplemented"
+CL_JOBSFORK = "jobs_in_pipeline_or_substitution_lists_nothing"
+CL_DISOWN = "disown_unimplemented"
+CL_BANG = "bang_pid_parameter_unset"
+CL_WAITPID = "wait_pid_unimplemented"
+WL = "echo W$(sort -n $M | tr '\\n' ,)"
+
+
+def sync_cases(rng):
+    """(tag, clause expected when brush and bash differ, allowed differing line prefixes, stderr token, lines, before)"""
+    st = lambda: rng.choice([0, 0, 1, 3, 7, 42])
+    a, b, c3 = st(), st(), st()
+    out = []
+
+    def add(tag, clause, prefixes, token, lines, before, modes=("c", "stdin", "file")):
+        # the form is issued from a context of its own too (all executed by the current shell)
+        c = rng.choice(["top", "top", "func", "func2", "eval", "brace", "for", "while", "source"])
+        case = sweep_case([": > $M"] + lines + ["wait", "echo end"], before, c, "", rng.choice(list(modes)), tag)
+        case.update({"clause": clause, "prefixes": prefixes, "token": token})
+        out.append(case)
+
+    # wait %N for running jobs, in order of completion: the job's own status
+    add("wait_spec", CL_STATUS, {"s"}, None,
+        ["( sleep 0.35; echo 1 >> $M; exit %d ) &" % a, "( sleep 0.1; echo 2 >> $M; exit %d ) &" % b,
+         "wait %2; echo \"s=$?\"", WL, "wait %1; echo \"s=$?\"", WL], [[2], [1, 2]])
+    add("wait_spec_func_body", CL_STATUS, {"s"}, None,
+        ["bgst() { sleep $1; echo $2 >> $M; return $3; }", "bgst 0.1 1 %d &" % a, "wait %%; echo \"s=$?\"", WL,
+         "bgst 0.1 2 %d &" % b, "wait %+; echo \"s=$?\"", WL], [[1], [1, 2]])
+    add("wait_two_specs", CL_STATUS, {"s"}, None,
+        ["( sleep 0.1; echo 1 >> $M; exit %d ) &" % a, "( sleep 0.3; echo 2 >> $M; exit %d ) &" % b,
+         "wait %1 %2; echo \"s=$?\"", WL], [[1, 2]])
+    add("wait_killed_job", CL_STATUS, {"s"}, None,
+        ["sh -c 'echo 1 >> $M; sleep 0.1; kill -TERM $$' &", "wait; echo \"s=$?\"", WL,
+         "sh -c 'echo 2 >> $M; sleep 0.2; kill -TERM $$' &", "wait %1; echo \"s=$?\"", WL], [[1], [1, 2]])
+    # %+ %% %- : with two jobs brush and bash agree on %-; with three brush's older previous mark wins
+    add("wait_marks2", CL_STATUS, {"s"}, None,
+        ["( sleep 0.1; echo 1 >> $M ) &", "( sleep 0.3; echo 2 >> $M ) &", "wait %-; echo \"s=$?\"", WL, "wait %+; echo \"s=$?\"", WL],
+        [[1], [1, 2]])
+    # (on stdin / at prompts the poll after the over-long `wait %-` may already have removed the current job: `wait %%` then fails)
+    add("wait_marks3", CLAUSE_PREV, {"W", "s"}, None,
+        ["( sleep 0.9; echo 1 >> $M ) &", "( sleep 0.05; echo 2 >> $M ) &", "( sleep 0.45; echo 3 >> $M ) &",
+         "wait %-; echo \"s=$?\"", WL, "wait %%; echo \"s=$?\"", WL], [[], [3]])
+    add("wait_unknown_spec", CL_NOSUCH, {"s"}, None,
+        ["( sleep 0.1; echo 1 >> $M ) &", "wait %7 2>/dev/null; echo \"s=$?\"", "wait %1; echo \"s=$?\"", WL], [[1]])
+    add("wait_twice_same_spec", CL_WAITED, {"s"}, None,
+        ["( sleep 0.1; echo 1 >> $M ) &", "wait %1; echo \"s=$?\"", WL, "wait %1 2>/dev/null; echo \"s=$?\"", WL], [[1], [1]])
+    add("kill_spec", CL_KILL, {"k", "W", "s"}, "kill", ["( sleep 0.4; echo 1 >> $M ) &", "kill %1; echo \"k=$?\"", "wait; echo \"s=$?\"", WL], [[]])
+    # a job whose task ends with an error (failing expansion in the job's own shell): plain `wait`
+    fail = rng.choice([": $((1/0)) &", "{ sleep 0.05; : ${nosuchvar?boom}; } &", "{ sleep 0.02; echo 9 >> $M; : $((1/0)); } &"])
+    marks = [9] if "echo 9" in fail else []
+    add("wait_after_failed_job_first", CL_ABORT, {"s", "W", "J"}, "wait: ",
+        [fail, "{ sleep 0.4; echo 2 >> $M; } &", "wait; echo \"s=$?\"", WL, "echo JB; jobs; echo JE", "wait; echo \"s=$?\"", WL],
+        [[2] + marks, [2] + marks])
+    add("wait_after_failed_job_last", CL_ABORT, {"s", "W", "J"}, "wait: ",
+        ["{ sleep 0.2; echo 1 >> $M; } &", fail, "wait; echo \"s=$?\"", WL, "wait; echo \"s=$?\"", WL], [[1] + marks, [1] + marks])
+    add("wait_n", CL_WAITN, {"s", "W"}, "wait -n",
+        ["( sleep 0.05; echo 1 >> $M ) &", "( sleep 0.6; echo 2 >> $M ) &", "wait -n; echo \"s=$?\"", WL], [[1]])
+    add("spec_by_name", CL_NAME, {"s", "W"}, "job spec naming command",
+        ["sleep 0.2 &", "wait %sleep; echo \"s=$?\"", "sleep 0.2 &", "wait %?lee; echo \"s=$?\""], [])
+    add("jobs_p", CL_JOBSP, {"n"}, None, ["sleep 0.3 &", "sleep 0.3 &", "jobs -p > $F; echo \"n=$(wc -l < $F)\""], [])
+    add("jobs_l", CL_JOBSL, {"n"}, "jobs -l", ["sleep 0.3 &", "jobs -l > $F; echo \"n=$(wc -l < $F)\""], [])
+    add("jobs_r_s", None, set(), None, ["sleep 0.3 &", "sleep 0.3 &", "jobs -r > $F; echo \"n=$(grep -c '^\\[' $F)\"",
+                                       "jobs -s > $F; echo \"n=$(grep -c '^\\[' $F)\"", "jobs > $F; echo \"n=$(grep -c '^\\[' $F)\""], [])
+    add("jobs_forked", CL_JOBSFORK, {"n"}, None,
+        ["sleep 0.3 &", "echo \"n=$(jobs | grep -c '^\\[')\"", "x=$(jobs); echo \"n=${x:+listed}\""], [])
+    add("disown", CL_DISOWN, {"n", "W"}, "disown",
+        ["( sleep 0.5; echo 1 >> $M ) &", "disown", "jobs > $F; echo \"n=$(grep -c '^\\[' $F)\"", WAITLINE], [[]])
+    add("bang", CL_BANG, {"b", "s"}, None,
+        ["( sleep 0.1; echo 1 >> $M; exit %d ) &" % (a or 3), "echo \"b=${!:+set}\"", "wait $!; echo \"s=$?\"", WL], [[1]])
+    add("wait_pid", CL_WAITPID, {"s"}, "wait with process IDs", ["wait 999999; echo \"s=$?\""], [])
+    add("monitor_mode", None, set(), None,
+        ["set -m", "bgjob() { sleep $1; echo $2 >> $M; }", "bgjob 0.1 1 &", "bgjob 0.05 2 &", WAITLINE, "set +m", "bgjob 0.05 3 &", WAITLINE],
+        [[1, 2], [1, 2, 3]])
+    return out
+
+
+def fg_diff_prefixes(bf, of):
+    """which kinds of foreground lines differ between brush and bash (None = the line structure itself differs)"""
+    if len(bf) != len(of):
+        return None
+    out = set()
+    for x, y in zip(bf, of):
+        if x != y:
+            if x[:1] != y[:1]:
+                return None
+            out.add(x[:1])
+    return out
+
+
+def classify_sweep(case, rb, ro):
+    """-> (verdict, clause, why): verdict in pass / known / violation"""
+    fails = e2e_check(case["lines"], case["mode"], rb, ro, case["before"], reps=2 if case.get("ctx") == "twice" else 1)
+    if not fails:
+        return "pass", None, None
+    why = fails[0][1]
+    clause = case.get("clause")
+    if clause and not rb["timeout"]:
+        bf, bbg, bj = canon_run(case["lines"], rb)
+        of, obg, oj = canon_run(case["lines"], ro)
+        pre = fg_diff_prefixes(bf, of)
+        tok = case.get("token")
+        narrow = pre is not None and pre <= case["prefixes"] and rb["rc"] == ro["rc"] and (tok is None or tok in rb["err"])
+        if clause == CL_STATUS:       # brush's status is 0 where bash reports the job's own
+            narrow = narrow and all(x == "s=0" for x, y in zip(bf, of) if x != y)
+        if clause in (CL_NOSUCH,):
+            narrow = narrow and all((x, y) == ("s=1", "s=127") for x, y in zip(bf, of) if x != y)
+        if clause == CL_WAITED:
+            pairs = {(x, y) for x, y in zip(bf, of) if x != y}
+            if pairs == {("s=1", "s=127")}:
+                clause = CL_NOSUCH      # the poll between commands (stdin / prompt) had already removed the waited job
+            else:
+                narrow = narrow and pairs == {("s=0", "s=127")}
+        if narrow:
+            return "known", clause, why
+    return "violation", None, why
+
+
+def run_e2e_sweep(ctx, base_cases):
+    rng = ctx.rng
+    cases = []
+    pool = [c for c in base_cases if "seg" not in c and c.get("before") and len(c["lines"]) < 40]
+    one_line = []
+    for i in range(ctx.size(6, 40)):
+        lines, meta = gen_script(rng, 1 + i % 6, kinds=ONE_LINE_KINDS, loops=False)
+        one_line.append({"lines": lines, "before": meta["before"]})
+
+    def pick(mode, opt):
+        src = one_line if (mode == "inter" or "-m" in opt) else pool
+        b = rng.choice(src)
+        return b["lines"], b["before"]
+
+    if ctx.quick:
+        # every context in every delivery mode once, options rotating; every option once in a rotating context
+        k = 0
+        for c in E2E_CTX:
+            for mode in E2E_MODES:
+                opt = E2E_OPTS[k % len(E2E_OPTS)] if k % 3 == 0 else ""
+                k += 1
+                seg, before = pick(mode, opt)
+                cases.append(sweep_case(seg, before, c, opt, mode))
+        for j, opt in enumerate(E2E_OPTS):
+            mode = E2E_MODES[j % 4]
+            seg, before = pick(mode, opt)
+            cases.append(sweep_case(seg, before, E2E_CTX[(j * 5 + ctx.seed) % len(E2E_CTX)], opt, mode))
+    else:
+        for rep in range(2):
+            for c in E2E_CTX:
+                for mode in E2E_MODES:
+                    for opt in [""] + E2E_OPTS:
+                        seg, before = pick(mode, opt)
+                        cases.append(sweep_case(seg, before, c, opt, mode))
+    cdir = os.path.join(lib.ROOT, "corpus", "C17")
+    for f in sorted(os.listdir(cdir)) if os.path.isdir(cdir) else []:
+        if f.endswith(".sweep.json"):
+            for c in json.load(open(os.path.join(cdir, f))):
+                c = dict(c)
+                c["prefixes"] = set(c.get("prefixes", []))
+                cases.append(c)
+    for rep in range(ctx.size(1, 6)):
+        cases += iso_cases(rng)
+        cases += sync_cases(rng)
+
+    def one(case):
+        last = None
+        for attempt in range(3):      # a regression is deterministic; a scheduling hiccup is not
+            rb, ro = run_one_e2e(case)
+            if ro["timeout"]:
+                return ("oracle", None, None, rb, ro)
+            v = classify_sweep(case, rb, ro)
+            last = v + (rb, ro)
+            if v[0] != "violation":
+                return last
+        return last
+
+    results = lib.pmap(one, cases, workers=max(4, lib.NCPU // 2))
+    nv = 0
+    for case, (verdict, clause, why, rb, ro) in zip(cases, results):
+        ctx.count(("sweep", tuple(case["lines"]), case["mode"]), bucket="sweep_" + (case["tag"] if case["tag"] != "ctx" else "ctx_" + case["ctx"]))
+        if case["tag"] == "ctx":
+            ctx.bucket("sweep_mode_" + case["mode"])
+            if case["opt"]:
+                ctx.bucket("sweep_opt_" + case["opt"].replace(" ", "_"))
+        if verdict == "oracle":
+            ctx.oracle_mismatch += 1
+            continue
+        if verdict == "pass":
+            continue
+        c = {k: v for k, v in case.items() if k not in ("prefixes",)}
+        c.update({"brush_out": rb["out"][-3000:], "bash_out": ro["out"][-3000:], "brush_err": rb["err"][-800:]})
+        if verdict == "known":
+            ctx.known_or_violation(clause, why + " [%s]" % case["tag"], c)
+        elif nv < 10:
+            nv += 1
+            ctx.violation("%s (context sweep: %s, option %r, %s delivery)" % (why, case["ctx"] if case["tag"] == "ctx" else case["tag"],
+                                                                               case["opt"], case["mode"]), c)
+
+
+# ------------------------------------------------------------------------------------------------
 
 def run(ctx):
     ok, out = lib.cargo_build([BIN])
@@ -552,6 +885,8 @@ def run(ctx):
         return
     run_inproc(ctx)
     run_e2e(ctx)
+    run_inproc_sweep(ctx, ctx.inproc_cases)
+    run_e2e_sweep(ctx, ctx.e2e_cases)
     ctx.cov["rule"] = ("in-process: exhaustive op sequences (launch / complete oldest / complete newest / poll / wait with "
                        "forward and reverse completion schedules / wait %1 / wait %-) up to length " + str(ctx.size(6, 7)) +
                        ", every finishing permutation of 1-" + str(ctx.size(5, 6)) + " jobs split at every point into before/during the wait"
@@ -589,6 +924,17 @@ def replay(ctx, rp):
             print("(recorded finding %s: brush behaves as the model of the code says)" % recorded[0][0])
         other = [f for f in fails if f not in recorded]
         return 1 if (other or (b and body not in (m[0], m2[0]))) else 0
+    if "lines" in case and "tag" in case:
+        case = dict(case)
+        case["prefixes"] = set(case.get("prefixes", []))
+        rb, ro = run_one_e2e(case)
+        verdict, clause, why = classify_sweep(case, rb, ro)
+        print("script (%s, context %s, option %r, %s delivery):\n%s" % (case["tag"], case.get("ctx"), case.get("opt"), case["mode"],
+                                                                        "\n".join(case["lines"])))
+        print("brush:\n" + rb["out"] + "brush stderr:\n" + rb["err"][-600:])
+        print("bash:\n" + ro["out"])
+        print("verdict:", verdict, clause or "", why or "")
+        return 1 if verdict == "violation" or (verdict == "known" and clause not in ctx.known) else 0
     if "lines" in case:
         bad = 0
         for _ in range(3):
